@@ -643,9 +643,70 @@ class Translator:
         ctx["loops"] += 1
         return [f"{ind}while {self.expr(cond)}:"] + self.block(body, ind + "    ", ctx)
 
+    def counting_loop(self, init, cond, inc, body):
+        """for (T i = a; i < CONST; ++i) with i not written in the body -> (name, lo, hi) else None"""
+        try:
+            if init.get("kind") != "DeclStmt" or len(init["inner"]) != 1:
+                return None
+            d = init["inner"][0]
+            if d.get("kind") != "VarDecl" or kind_of_type(type_of(d)) != "int":
+                return None
+            ini = [c for c in d.get("inner", [])]
+            if not ini:
+                return None
+            if cond.get("kind") != "BinaryOperator" or cond["opcode"] not in ("<", "<="):
+                return None
+            lhs, rhs = cond["inner"]
+
+            def strip(x):
+                while x.get("kind") in ("ImplicitCastExpr", "ParenExpr"):
+                    x = x["inner"][0]
+                return x
+            l, r = strip(lhs), strip(rhs)
+            if l.get("kind") != "DeclRefExpr" or l["referencedDecl"]["id"] != d["id"]:
+                return None
+            const_bound = r.get("kind") == "IntegerLiteral" or (
+                r.get("kind") == "DeclRefExpr" and "const" in r["referencedDecl"].get("type", {}).get("qualType", ""))
+            if not const_bound:
+                return None
+            i = strip(inc)
+            if i.get("kind") != "UnaryOperator" or i["opcode"] != "++" or strip(i["inner"][0])["referencedDecl"]["id"] != d["id"]:
+                return None
+
+            def writes(x):
+                if x.get("kind") in ("BinaryOperator", "CompoundAssignOperator") and x.get("opcode", "").endswith("=") \
+                        and x.get("opcode") not in ("==", "!=", "<=", ">="):
+                    t = strip(x["inner"][0])
+                    if t.get("kind") == "DeclRefExpr" and t["referencedDecl"]["id"] == d["id"]:
+                        return True
+                if x.get("kind") == "UnaryOperator" and x.get("opcode") in ("++", "--"):
+                    t = strip(x["inner"][0])
+                    if t.get("kind") == "DeclRefExpr" and t["referencedDecl"]["id"] == d["id"]:
+                        return True
+                if x.get("kind") in ("ContinueStmt",):
+                    return False
+                return any(writes(ch) for ch in x.get("inner", []) if isinstance(ch, dict))
+            if writes(body):
+                return None
+            hi = self.expr(rhs)
+            if cond["opcode"] == "<=":
+                hi = f"({hi}) + 1"
+            return d["name"], self.expr(ini[0]), hi, d
+        except (KeyError, IndexError):
+            return None
+
     def s_ForStmt(self, n, ind, ctx):
         kids = n.get("inner", [])
         init, condvar, cond, inc, body = (kids + [None] * 5)[:5]
+        cl = self.counting_loop(init, cond, inc, body) if init and cond and inc and body else None
+        if cl:
+            name, lo, hi, d = cl
+            ctx["declared"][name] = d["id"]
+            ctx["loops"] += 1
+            ctx["for_inc"].append([])
+            body_lines = self.block(body, ind + "    ", ctx)
+            ctx["for_inc"].pop()
+            return [f"{ind}for {name} in range({lo}, {hi}):"] + body_lines
         out = []
         if init and init.get("kind"):
             out += self.stmt(init, ind, ctx)
